@@ -121,6 +121,9 @@ AtDone == done =>
    /\ index = N
    /\ resT # <<>>
 
+\* with Progress and IterBound this is termination without a liveness check: no stuck state before done
+NotStuck == ~done => ENABLED NextLoop
+
 Progress == [][ /\ (Advance => index' > index)
                 /\ (ProcessMeas => mi' > mi) ]_vars
 =============================================================================
